@@ -44,20 +44,38 @@ void writeColumn(S &s, size_t ci, long off, const std::vector<long> &codes, bool
 
 template <typename T> bool readColCheck(S &s, size_t ci, std::string &why) {
     const std::string &t = s.types[ci];
-    // resize = true, offset 0: the whole column
-    std::vector<T> v;
-    s.df.readColumn(s.names[ci], v, true, 0);
-    if ((long) v.size() != s.rows) { why = "readColumn(resize) returned " + std::to_string(v.size()) + " rows"; return false; }
-    for (long r = 0; r < s.rows; r++) {
-        long code = ci < s.modelCols ? s.cell[{r, (long) ci + 1}] : 0;
-        if (!(v[(size_t) r] == val(t, code).get<T>())) { why = "readColumn(" + s.names[ci] + ") row " + std::to_string(r) + " differs"; return false; }
-    }
-    if (s.rows >= 2) {   // by index, with offset 1, into a pre-sized vector without resize
-        std::vector<T> w((size_t) (s.rows - 1));
-        s.df.readColumn((unsigned) ci, w, false, 1);
-        for (long r = 1; r < s.rows; r++) {
-            long code = ci < s.modelCols ? s.cell[{r, (long) ci + 1}] : 0;
-            if (!(w[(size_t) (r - 1)] == val(t, code).get<T>())) { why = "readColumn(offset 1) row " + std::to_string(r) + " differs"; return false; }
+    auto expect = [&](long r) { long code = ci < s.modelCols ? s.cell[{r, (long) ci + 1}] : 0; return val(t, code).get<T>(); };
+    // every overload (by name / by index, with and without explicit count), resize on and off, every offset 0..rows and every
+    // stretch [off, off+cnt) inside the column: the vector must hold exactly the cells of that stretch
+    bool full = ci < s.modelCols;      // never-written extra columns: a reduced sweep
+    for (long off = 0; off <= s.rows; off++) {
+        if (!full && off > 1) break;
+        for (int how = 0; how < 4; how++) {
+            if (!full && (how == 1 || how == 2)) continue;
+            // how 0: (name, resize=true, off)   1: (index, resize=true, off)   2: (name, pre-sized, resize=false, off)   3: (index, pre-sized, false, off)
+            std::vector<T> v;
+            long want = s.rows - off;
+            if (how >= 2) v.resize((size_t) want);
+            if (how >= 2 && want == 0) continue;            // nothing to read into an empty vector
+            try {
+                if (how == 0) s.df.readColumn(s.names[ci], v, true, (nix::ndsize_t) off);
+                else if (how == 1) s.df.readColumn((unsigned) ci, v, true, (nix::ndsize_t) off);
+                else if (how == 2) s.df.readColumn(s.names[ci], v, false, (nix::ndsize_t) off);
+                else s.df.readColumn((unsigned) ci, v, false, (nix::ndsize_t) off);
+            } catch (const std::exception &e) { why = "readColumn variant " + std::to_string(how) + " offset " + std::to_string(off) + " threw: " + e.what(); return false; }
+            if ((long) v.size() != want) { why = "readColumn variant " + std::to_string(how) + " offset " + std::to_string(off) + " returned " + std::to_string(v.size()) + " rows, expected " + std::to_string(want); return false; }
+            for (long r = off; r < s.rows; r++)
+                if (!(v[(size_t) (r - off)] == expect(r))) { why = "readColumn variant " + std::to_string(how) + " (" + s.names[ci] + ") offset " + std::to_string(off) + " row " + std::to_string(r) + " differs"; return false; }
+        }
+        for (long cnt = 1; full && off + cnt <= s.rows; cnt++) {
+            for (int how = 0; how < 2; how++) {
+                std::vector<T> v;                            // explicit count, resize = true
+                try { if (how == 0) s.df.readColumn(s.names[ci], v, (size_t) cnt, true, (nix::ndsize_t) off); else s.df.readColumn((unsigned) ci, v, (size_t) cnt, true, (nix::ndsize_t) off); }
+                catch (const std::exception &e) { why = "readColumn(count " + std::to_string(cnt) + ", offset " + std::to_string(off) + ") threw: " + e.what(); return false; }
+                if ((long) v.size() != cnt) { why = "readColumn(count) returned " + std::to_string(v.size()) + " rows, expected " + std::to_string(cnt); return false; }
+                for (long r = off; r < off + cnt; r++)
+                    if (!(v[(size_t) (r - off)] == expect(r))) { why = "readColumn(count " + std::to_string(cnt) + ", offset " + std::to_string(off) + ") row " + std::to_string(r) + " differs"; return false; }
+            }
         }
     }
     return true;
